@@ -324,11 +324,11 @@ def rule_contains(ctx):
                 for c in cs:
                     stmt = None
                     for x in walk(body):
-                        if x["k"] == "Assign" and any(y is c for y in walk(x)):
+                        if (x["k"] in ("Assign", "AssignOp") or (x["k"] == "Binary" and x.get("op") in ("|=", "||="))) and any(y is c for y in walk(x)):
                             stmt = x
                     t = render(stmt).replace(" ", "") if stmt is not None else ""
                     cr = render(c).replace(" ", "")
-                    if t not in ("result=(%s||result)" % cr, "result=(result||%s)" % cr, "result=(%s|result)" % cr, "result=(result|%s)" % cr):
+                    if t not in ("result=(%s||result)" % cr, "result=(result||%s)" % cr, "result=(%s|result)" % cr, "result=(result|%s)" % cr, "(result|=%s)" % cr, "result|=%s" % cr):
                         bad.append("child result not or-ed into `result`: %s" % (t or cr)[:100])
                 ctx.check(R, "%s::contains_expr/%s/results-accumulated" % (who, vname), not bad, "; ".join(bad), site(SST, a))
     for nm, pred in (("contains_tuple", "expr.is_tuple()"), ("contains_anonymous_component", "expr.is_anonymous_component()")):
